@@ -62,7 +62,7 @@ use embassy_futures::select::select;
 use crate::dm::endpoints::ROOT_ENDPOINT_ID;
 use crate::dm::{
     ArrayAttributeRead, AttrChangeNotifier, Attribute, Cluster, Command, Dataver, EndptId,
-    EventEmitter, HandlerContext, InvokeContext, NodeId, Quality, ReadContext,
+    EventEmitter, HandlerContext, InvokeContext, LifecycleOp, NodeId, Quality, ReadContext,
 };
 use crate::error::{Error, ErrorCode};
 use crate::persist::{
@@ -842,6 +842,25 @@ impl<const TIME_ZONE_MAX: usize, const DST_OFFSET_MAX: usize>
         Ok(())
     }
 
+    /// Reset both lists to their defaults and remove the persisted blob from
+    /// `store` (under [`TIME_ZONE_KEY`]).
+    ///
+    /// Called on factory reset via the [`LifecycleOp::FactoryReset`] lifecycle
+    /// operation delivered to the [`TimeSyncHandler`] borrowing this store.
+    pub fn reset_persist<S: KvBlobStore>(&self, mut store: S, buf: &mut [u8]) -> Result<(), Error> {
+        self.state.lock(|state| {
+            let mut state = state.borrow_mut();
+
+            state.data.time_zone.clear();
+            state.data.dst_offset.clear();
+            state.generation = state.generation.wrapping_add(1);
+        });
+
+        self.changed.notify();
+
+        store.remove(TIME_ZONE_KEY, buf)
+    }
+
     /// Serialise both lists to `kv` under [`TIME_ZONE_KEY`]. Called by the
     /// handler after every accepted mutation (the lists are `nonVolatile`
     /// quality per the Matter Core spec).
@@ -1449,6 +1468,19 @@ impl ClusterHandler for TimeSyncHandler<'_> {
 
     fn dataver_changed(&self) {
         self.dataver.changed();
+    }
+
+    fn lifecycle(&self, ctx: impl HandlerContext, op: LifecycleOp) -> Result<(), Error> {
+        match (op, self.tz_store) {
+            // The lists are written under `TIME_ZONE_KEY` by the `SetTimeZone` /
+            // `SetDSTOffset` handlers below: a factory reset removes them again.
+            // (Loading them at start-up stays with the application, see
+            // `TimeZoneStore::load_persist`.)
+            (LifecycleOp::FactoryReset, Some(store)) => ctx
+                .kv()
+                .access(|kv, buf| store.reset_persist(kv, buf)),
+            _ => Ok(()),
+        }
     }
 
     // ---- Always-on reads (served from Matter-wide LKG state, not
